@@ -1257,6 +1257,41 @@ fn run_dr(id: &str, k: usize, line: &str, arg: &str, out: &mut impl Write, orc: 
     }
 }
 
+/// per-type decoder ops (DH DO DF DT DV DQ DS): `<value> <consumed>` | ERR | PANIC; C06: no panic, bounded allocation
+fn run_typed<T>(
+    id: &str,
+    k: usize,
+    line: &str,
+    name: &str,
+    input: &[u8],
+    dec: impl FnOnce(&mut &[u8]) -> PDUResult<T>,
+    show: impl FnOnce(&T) -> Sx,
+    out: &mut impl Write,
+    orc: &mut impl Write,
+) {
+    let mut s = input;
+    let (r, grew) = measured(|| guard(|| dec(&mut s)));
+    let consumed = input.len() - s.len();
+    if grew > alloc_limit(input.len()) {
+        fail!(orc, "C06", id, k, line, "{name} of {} input bytes allocated {grew} bytes (limit {})", input.len(), alloc_limit(input.len()));
+    }
+    match r {
+        Err(()) => {
+            writeln!(out, "PANIC").unwrap();
+            fail!(orc, "C06", id, k, line, "{name} panicked");
+        }
+        Ok(Err(_)) => writeln!(out, "ERR").unwrap(),
+        Ok(Ok(v)) => writeln!(out, "{} {consumed}", show(&v).print()).unwrap(),
+    }
+}
+fn flag_arg(t: &str) -> u8 {
+    match t {
+        "0" => 0,
+        "1" => 1,
+        o => panic!("codec: flag 0/1 expected, got {o}"),
+    }
+}
+
 pub fn run(ops: &str, out: &mut impl Write, orc: &mut impl Write) {
     // developer aid: CODEC_REFCHECK=1 compares the generator's reference encoders with the real ones (stderr)
     let refcheck = std::env::var_os("CODEC_REFCHECK").is_some();
@@ -1275,6 +1310,42 @@ pub fn run(ops: &str, out: &mut impl Write, orc: &mut impl Write) {
                 "DU" => run_du(id, k, line, arg, out, orc),
                 "ER" => run_er(id, k, line, arg, out, orc, refcheck),
                 "DR" => run_dr(id, k, line, arg, out, orc),
+                "DH" => run_typed(id, k, line, "PDUHeader::decode", &unhex(arg), |s| PDUHeader::decode(s), sx_hdr, out, orc),
+                "DO" => {
+                    let t: Vec<&str> = arg.split_whitespace().collect();
+                    let flag = fsize_from(flag_arg(t[0]));
+                    run_typed(
+                        id,
+                        k,
+                        line,
+                        "Operations::decode",
+                        &unhex(t[1]),
+                        |s| Operations::decode(s, flag),
+                        |o: &Operations| sx_payload(&PDUPayload::Directive(o.clone())),
+                        out,
+                        orc,
+                    )
+                }
+                "DF" => {
+                    let t: Vec<&str> = arg.split_whitespace().collect();
+                    let seg = segmeta_from(flag_arg(t[0]));
+                    let flag = fsize_from(flag_arg(t[1]));
+                    run_typed(
+                        id,
+                        k,
+                        line,
+                        "FileDataPDU::decode",
+                        &unhex(t[2]),
+                        |s| FileDataPDU::decode(s, seg, flag),
+                        |d: &FileDataPDU| sx_payload(&PDUPayload::FileData(d.clone())),
+                        out,
+                        orc,
+                    )
+                }
+                "DT" => run_typed(id, k, line, "MetadataTLV::decode", &unhex(arg), |s| MetadataTLV::decode(s), sx_tlv, out, orc),
+                "DV" => run_typed(id, k, line, "VariableID::decode", &unhex(arg), |s| VariableID::decode(s), sx_id, out, orc),
+                "DQ" => run_typed(id, k, line, "FileStoreRequest::decode", &unhex(arg), |s| FileStoreRequest::decode(s), sx_fsq, out, orc),
+                "DS" => run_typed(id, k, line, "FileStoreResponse::decode", &unhex(arg), |s| FileStoreResponse::decode(s), sx_fsr, out, orc),
                 other => panic!("codec: unknown op {other}"),
             }
         }
@@ -2655,6 +2726,36 @@ fn mutations(g: &mut G, op: &str, enc: &[u8], force_len: bool) {
     }
 }
 
+/// per-type decoder corpus entry: valid bytes, valid bytes + trailing garbage, truncations, replacements
+fn typed_mutations(g: &mut G, op: &str, enc: &[u8]) {
+    mutations(g, op, enc, false);
+    let mut v = enc.to_vec();
+    v.extend_from_slice(&[0xaa, 0x55]);
+    g.d(op, &v);
+}
+fn ref_enc_tlv(t: &MetadataTLV) -> Vec<u8> {
+    // a Metadata directive (small flag, empty names) is: 07, flags, 4 size bytes, 00, 00, then the TLVs
+    ref_enc_payload(&md(false, ChecksumType::Modular, 0, "", "", vec![t.clone()]), false)[8..].to_vec()
+}
+fn ref_enc_varid(i: &VariableID) -> Vec<u8> {
+    let mut o = vec![idw(i) as u8 - 1];
+    o.extend(id_bytes(i));
+    o
+}
+/// random bytes, half of the time made of small values (plausible lengths / codes)
+fn rnd_soft_bytes(r: &mut Rng, max: u64) -> Vec<u8> {
+    let n = r.below(max + 1) as usize;
+    let mut v = r.bytes(n);
+    if r.chance(1, 2) {
+        for b in v.iter_mut() {
+            if *b >= 0x40 {
+                *b &= 0x0f;
+            }
+        }
+    }
+    v
+}
+
 pub fn gen(seed: u64, tier: &str, w: &mut impl Write, stats: &mut Stats) {
     let thorough = tier == "thorough";
     let n_random: u64 = if thorough { 300_000 } else { 6_000 };
@@ -2895,5 +2996,186 @@ pub fn gen(seed: u64, tier: &str, w: &mut impl Write, stats: &mut Stats) {
     g.stream("d", "DR-valid");
     for enc in &valid_report_encodings {
         g.d("DR", enc);
+    }
+
+    // ---- per-type decoders (FORMAT.md addendum): DH DO DF DT DV DQ DS ----
+    let n_typed_random: u64 = if thorough { 6_000 } else { 300 };
+    let short = all_strings(&SMALL_ALPHABET, 3);
+
+    // DH: all 16 width pairs x crc x large
+    g.stream("t", "DH-mutations");
+    let mut k = 0u64;
+    for ew in WIDTHS {
+        for sw in WIDTHS {
+            for crc in [false, true] {
+                for large in [false, true] {
+                    k += 1;
+                    let h = H {
+                        version: (k % 8) as u8,
+                        dir: (k % 2) as u8,
+                        mode: ((k / 2) % 2) as u8,
+                        crc,
+                        large,
+                        segctl: ((k / 4) % 2) as u8,
+                        segmeta: ((k / 8) % 2) as u8,
+                        src: bid(ew, k as usize),
+                        seq: bid(sw, k as usize + 1),
+                        dst: bid(ew, k as usize + 2),
+                    };
+                    let pdu = build(&h, dirp(Operations::KeepAlive(KeepAlivePDU { progress: k })));
+                    let enc = ref_enc_pdu(&pdu);
+                    typed_mutations(&mut g, "DH", &enc[..ref_hdr_len(&pdu.header)]);
+                }
+            }
+        }
+    }
+    g.stream("t", "DH-short-strings");
+    for sh in &short {
+        g.d("DH", sh);
+    }
+    g.stream("t", "DH-random-bytes");
+    for _ in 0..n_typed_random {
+        let (_, mut r) = rng.fork();
+        let mut v = rnd_soft_bytes(&mut r, 40);
+        if v.len() >= 4 && r.chance(1, 2) {
+            // plausible id widths
+            v[3] = (v[3] & 0x88) | ((*r.pick(&[0u8, 1, 3, 7])) << 4) | *r.pick(&[0u8, 1, 3, 7]);
+        }
+        g.d("DH", &v);
+    }
+
+    // DO: every corpus directive payload x both flags
+    g.stream("t", "DO-mutations");
+    for p in corpus_payloads() {
+        if !matches!(p, PDUPayload::Directive(_)) {
+            continue;
+        }
+        for large in [false, true] {
+            typed_mutations(&mut g, &format!("DO {}", large as u8), &ref_enc_payload(&p, large));
+        }
+    }
+    g.stream("t", "DO-short-strings");
+    for large in 0..2 {
+        for sh in &short {
+            g.d(&format!("DO {large}"), sh);
+        }
+    }
+    g.stream("t", "DO-random-bytes");
+    for _ in 0..n_typed_random {
+        let (_, mut r) = rng.fork();
+        let mut v = rnd_soft_bytes(&mut r, 40);
+        if !v.is_empty() && r.chance(3, 4) {
+            v[0] = *r.pick(&[0x04u8, 0x05, 0x06, 0x07, 0x08, 0x09, 0x0c]);
+        }
+        g.d(&format!("DO {}", r.below(2)), &v);
+    }
+
+    // DF: unsegmented + segmented x both flags
+    g.stream("t", "DF-mutations");
+    for p in [fd(16, b"some data".to_vec()), sfd(RecordContinuationState::Last, vec![9, 8, 7], 0x0102_0304, b"rec".to_vec())] {
+        let seg = matches!(p, PDUPayload::FileData(FileDataPDU::Segmented(_))) as u8;
+        for large in [false, true] {
+            typed_mutations(&mut g, &format!("DF {seg} {}", large as u8), &ref_enc_payload(&p, large));
+        }
+    }
+    g.stream("t", "DF-short-strings");
+    for seg in 0..2 {
+        for large in 0..2 {
+            for sh in &short {
+                g.d(&format!("DF {seg} {large}"), sh);
+            }
+        }
+    }
+    g.stream("t", "DF-random-bytes");
+    for _ in 0..n_typed_random {
+        let (_, mut r) = rng.fork();
+        let v = rnd_soft_bytes(&mut r, 40);
+        g.d(&format!("DF {} {}", r.below(2), r.below(2)), &v);
+    }
+
+    // DT: every TLV kind incl. every entity id width
+    g.stream("t", "DT-mutations");
+    let tl = all_tlvs(0);
+    for i in [1usize, 2, 9, 20, 43, 44, 45, 48, 49, 50, 51, 52, 53] {
+        typed_mutations(&mut g, "DT", &ref_enc_tlv(&tl[i]));
+    }
+    typed_mutations(&mut g, "DT", &ref_enc_tlv(&MetadataTLV::MessageToUser(MessageToUser { message_text: vec![] })));
+    g.stream("t", "DT-short-strings");
+    for sh in &short {
+        g.d("DT", sh);
+    }
+    g.stream("t", "DT-random-bytes");
+    for _ in 0..n_typed_random {
+        let (_, mut r) = rng.fork();
+        let mut v = rnd_soft_bytes(&mut r, 40);
+        if !v.is_empty() && r.chance(3, 4) {
+            v[0] = *r.pick(&[0x00u8, 0x01, 0x02, 0x04, 0x05, 0x06]);
+        }
+        g.d("DT", &v);
+    }
+
+    // DV: the four widths (max and small values)
+    g.stream("t", "DV-mutations");
+    for wd in WIDTHS {
+        typed_mutations(&mut g, "DV", &ref_enc_varid(&id_max(wd)));
+        typed_mutations(&mut g, "DV", &ref_enc_varid(&id_w(wd, 0x0102_0304_0506_0708)));
+    }
+    g.stream("t", "DV-short-strings");
+    for sh in &short {
+        g.d("DV", sh);
+    }
+    g.stream("t", "DV-random-bytes");
+    for _ in 0..n_typed_random {
+        let (_, mut r) = rng.fork();
+        let mut v = rnd_soft_bytes(&mut r, 12);
+        if !v.is_empty() && r.chance(1, 2) {
+            v[0] = *r.pick(&[0u8, 1, 3, 7, 2, 8, 0xfe, 0xff]);
+        }
+        g.d("DV", &v);
+    }
+
+    // DQ / DS: a few requests and responses
+    g.stream("t", "DQ-mutations");
+    for q in [
+        fsq(FileStoreAction::CreateFile, "a/b.txt", ""),
+        fsq(FileStoreAction::RenameFile, "old", "n\u{e9}w"),
+        fsq(FileStoreAction::DenyDirectory, "", ""),
+    ] {
+        typed_mutations(&mut g, "DQ", &ref_enc_fsq(&q));
+    }
+    g.stream("t", "DQ-short-strings");
+    for sh in &short {
+        g.d("DQ", sh);
+    }
+    g.stream("t", "DQ-random-bytes");
+    for _ in 0..n_typed_random {
+        let (_, mut r) = rng.fork();
+        let mut v = rnd_soft_bytes(&mut r, 40);
+        if !v.is_empty() && r.chance(1, 2) {
+            v[0] = (r.below(10) as u8) << 4;
+        }
+        g.d("DQ", &v);
+    }
+    g.stream("t", "DS-mutations");
+    for f in [
+        fsr(FS_STATUSES[0], "a/b.txt", "", b"ok"),
+        fsr(FS_STATUSES[10], "old", "n\u{e9}w", b""),
+        fsr(FS_STATUSES[34], "", "", b""),
+        fsr(FS_STATUSES[27], "d", "", &[0xff, 0x00]),
+    ] {
+        typed_mutations(&mut g, "DS", &ref_enc_fsr(&f));
+    }
+    g.stream("t", "DS-short-strings");
+    for sh in &short {
+        g.d("DS", sh);
+    }
+    g.stream("t", "DS-random-bytes");
+    for _ in 0..n_typed_random {
+        let (_, mut r) = rng.fork();
+        let mut v = rnd_soft_bytes(&mut r, 40);
+        if !v.is_empty() && r.chance(1, 2) {
+            v[0] = ((r.below(10) as u8) << 4) | *r.pick(&[0u8, 1, 2, 3, 6, 0xf, 5]);
+        }
+        g.d("DS", &v);
     }
 }
